@@ -41,9 +41,22 @@ def build_engine(e, type_=TypeComponent.AUXILIARY_ENGINE):
               emissions_curves=curves, engine_cycle_type=EngineCycleType[e.get("cycle", "DIESEL")])
     if e.get("dual"):
         d = e["dual"]
-        return EngineDualFuel(bspfc_curve=ca(d["bspfc"]), pilot_fuel_type=TypeFuel[d.get("pilot_type", "DIESEL")],
-                              pilot_fuel_origin=FuelOrigin[d.get("pilot_origin", "FOSSIL")], **kw)
-    return Engine(**kw)
+        obj = EngineDualFuel(bspfc_curve=ca(d["bspfc"]), pilot_fuel_type=TypeFuel[d.get("pilot_type", "DIESEL")],
+                             pilot_fuel_origin=FuelOrigin[d.get("pilot_origin", "FOSSIL")], **kw)
+    else:
+        obj = Engine(**kw)
+    reuse_curve_lists(curves)
+    return obj
+
+
+def reuse_curve_lists(curves):
+    """The caller builds the next component's curves in the same lists (cleared and refilled): the component just built keeps the
+    curves it was given (D94: a one-point curve was read from the caller's list at every evaluation)."""
+    for c in curves or []:
+        c.points_per_kwh.clear()
+        c.points_per_kwh.append(EmissionCurvePoint(load_ratio=1.0, emission_g_per_kwh=987654.0))
+    if curves:
+        curves.clear()
 
 
 def build_machine(m, power_type, swb, type_=TypeComponent.GENERATOR, name=None):
@@ -65,10 +78,12 @@ def build_cogas(c):
     if c.get("emissions"):
         curves = [EmissionCurve(points_per_kwh=[EmissionCurvePoint(load_ratio=p[0], emission_g_per_kwh=p[1]) for p in e["points"]],
                                 emission=EmissionType[e["species"]]) for e in c["emissions"]]
-    return COGAS(name=c.get("name", "cogas"), rated_power=Power_kW(num(c)), eff_curve=ca(c["curve"]),
-                 rated_speed=Speed_rpm(c.get("speed", 3000.0)), gas_turbine_power_curve=gt, steam_turbine_power_curve=st,
-                 fuel_type=TypeFuel[c.get("fuel_type", "DIESEL")], fuel_origin=FuelOrigin[c.get("fuel_origin", "FOSSIL")],
-                 emissions_curves=curves, nox_calculation_method=NOxCalculationMethod[c.get("nox", "TIER_3")])
+    obj = COGAS(name=c.get("name", "cogas"), rated_power=Power_kW(num(c)), eff_curve=ca(c["curve"]),
+                rated_speed=Speed_rpm(c.get("speed", 3000.0)), gas_turbine_power_curve=gt, steam_turbine_power_curve=st,
+                fuel_type=TypeFuel[c.get("fuel_type", "DIESEL")], fuel_origin=FuelOrigin[c.get("fuel_origin", "FOSSIL")],
+                emissions_curves=curves, nox_calculation_method=NOxCalculationMethod[c.get("nox", "TIER_3")])
+    reuse_curve_lists(curves)
+    return obj
 
 
 def fname(spec):
